@@ -118,6 +118,21 @@ def read(text):
     return toks
 
 
+def norm_expr(t):
+    out, q = [], None
+    for ch in t:
+        if q:
+            out.append(ch)
+            if ch == q:
+                q = None
+        elif ch in "\"'`":
+            q = ch
+            out.append(ch)
+        elif not ch.isspace():
+            out.append(ch)
+    return "".join(out)
+
+
 def norm_tokens(toks):
     out = []
     for cls, t in toks:
@@ -129,7 +144,7 @@ def norm_tokens(toks):
         elif cls == "W":
             t = t.upper()
         elif cls == "E":
-            t = "".join(t.split())  # spacing inside ( ... ) is normalised by the parser: not this property's subject
+            t = norm_expr(t)  # spacing BETWEEN the tokens of an expression is normalised by the parser (not this property's subject); inside string literals it is data
         out.append([cls, t])
     return out
 
@@ -261,7 +276,7 @@ class Vocab:
             return w, [["B", w]]
         if kind == "expr":
             w = r.choice(["([pop] > 100)", '("[name]" = "x")', "([a] + 2 * [b])", "([code] = '1)')", "([street] = 'Main St (north')",
-                          "(([a] > 1) AND ([b] < 2))", "('(' + [name])"])
+                          "(([a] > 1) AND ([b] < 2))", "('(' + [name])", '("[name]" = "New  York")', "([a] = 'x\ty   z')"])
             return w, [["E", w]]
         if kind == "regex":
             w = r.choice(["/^road/", "/a|b/", "/^road/i"])
